@@ -238,11 +238,17 @@ def run_harness(args, timeout=900, env_extra=None, stdout_path=None):
     if env_extra:
         env.update(env_extra)
     t0 = time.time()
-    try:
-        p = subprocess.run([BIN] + [str(a) for a in args], env=env, stdout=subprocess.PIPE, stderr=subprocess.PIPE,
-                           text=True, timeout=timeout)
-    except subprocess.TimeoutExpired:
-        raise Inconclusive('harness timeout: pdverif %s' % ' '.join(map(str, args)))
+    for attempt in range(3):
+        try:
+            p = subprocess.run([BIN] + [str(a) for a in args], env=env, stdout=subprocess.PIPE, stderr=subprocess.PIPE,
+                               text=True, timeout=timeout)
+        except subprocess.TimeoutExpired:
+            raise Inconclusive('harness timeout: pdverif %s' % ' '.join(map(str, args)))
+        # an in-process server could not bind the port it had picked (taken by another process in between): not a result, run again
+        if p.returncode != 0 and re.search(r'ErrCancelStartEtcd|address already in use', p.stderr[-4000:]):
+            log('[harness] a server could not start (port taken); running the command again')
+            continue
+        break
     if p.returncode != 0:
         log(p.stderr[-4000:])
         raise Inconclusive('harness failed rc=%d: pdverif %s' % (p.returncode, ' '.join(map(str, args))))
